@@ -645,7 +645,8 @@ class Recompiler:
         tp = self._typedef_type(tp, name)
         self._typedef_ctx(tp, name)
         if getattr(tp, "origin", None) == "unknown_type":
-            self._struct_ctx(tp, tp.name, approxname=None)
+            if tp not in self._seen_struct_unions:   # e.g. two typedefs of FILE
+                self._struct_ctx(tp, tp.name, approxname=None)
         elif isinstance(tp, model.NamedPointerType):
             self._struct_ctx(tp.totype, tp.totype.name, approxname=tp.name,
                              named_ptr=tp)
